@@ -23,3 +23,4 @@ import Hls.Props.C16Text
 #print axioms Hls.C16T.items_append_ok
 #print axioms Hls.C16T.map_ok_split
 #print axioms Hls.C16T.append_stable_text
+#print axioms Hls.C16T.cut_inside_item_rejected_text
